@@ -195,6 +195,11 @@ func TestC33(t *testing.T) {
 			for pos, i := range j.idx {
 				rec.Case(nt[i], items[i].Name, eng, j.cfg.String())
 				rec.Class("config:" + j.cfg.String())
+				if lab := "child-" + j.cfg.String(); nt[i] && eng == host.VM && rec.WantSample(lab) {
+					st := outs[k][pos].Steps[len(outs[k][pos].Steps)-1]
+					rec.Sample(lab, map[string]any{"item": items[i].Name, "engine": eng.String(), "config": j.cfg.String(), "numcpu_seen": infos[k].NumCPU,
+						"steps": len(outs[k][pos].Steps), "last_step_class": st.Class, "last_step_writes": len(st.Writes), "last_step_digest": st.Digest})
+				}
 				if d := execgen.DiffTraces(ref[i], outs[k][pos]); d != "" {
 					rec.Violation(t, TraceCase{Item: items[i], Engine: int(eng), Config: j.cfg}, "%s on %s: child process (%s) differs from the in-process run: %s", items[i].Name, eng, j.cfg, d)
 				}
